@@ -1,7 +1,8 @@
 #!/usr/bin/env python3
 """tools/keep_seeded.py <worktree> <k> <id> <caught_by> <note...>: archive a confirmed seeded change
-as /verif/seeded/<id>/{patch.diff, demo.py, meta.json}."""
-import json, os, shutil, sys
+as /verif/seeded/<id>/{patch.diff, demo.py, meta.json}.  The line written by tools/confirm_tests.sh
+for this change (in /tmp/confirm_batch*.log) is recorded as the lead's own run of the repository tests."""
+import glob, json, os, shutil, sys
 wt, k, sid, caught = sys.argv[1:5]
 note = " ".join(sys.argv[5:])
 d = f"/verif/seeded/{sid}"
@@ -9,11 +10,17 @@ os.makedirs(d, exist_ok=True)
 shutil.copy(f"{wt}/SEEDED/change{k}.diff", f"{d}/patch.diff")
 shutil.copy(f"{wt}/SEEDED/demo{k}.py", f"{d}/demo.py")
 meta = json.load(open(f"{wt}/SEEDED/meta{k}.json"))
+tests = None
+for log in sorted(glob.glob("/tmp/confirm_batch*.log")):
+    for ln in open(log):
+        if ln.startswith(f"TESTS {wt} {k} rc="):
+            tests = ln.strip()
 meta["confirmed_by_lead"] = {
     "demo_without_change": "exit 0", "demo_with_change": "non-zero exit",
-    "how": "tools/try_seeded.sh: demo run with PYTHONPATH=<worktree>/src before and after `git apply`; "
-           "checks run against the patched sources (PYTHONPATH) / or git -C /repo apply + checkout",
-    "caught_by": caught.split(","), "note": note,
+    "how": "tools/try_seeded.sh: worktree brought to /repo's HEAD, demo run with PYTHONPATH=<worktree>/src before and "
+           "after `git apply`; checks run against the patched sources (PYTHONPATH)",
+    "repository_tests_with_change": tests or "not re-run by the lead (the seeding agent's run is in tests_run)",
+    "caught_by": [c for c in caught.split(",") if c], "note": note,
 }
 json.dump(meta, open(f"{d}/meta.json", "w"), indent=1)
-print("kept", d)
+print("kept", d, "| tests:", (tests or "-")[:90])
